@@ -1334,11 +1334,55 @@ class Frame:
 
     def e_ListComp(self, node):
         gens = node.generators
+        if len(gens) == 1 and not gens[0].ifs and isinstance(gens[0].iter, ast.Call) and isinstance(gens[0].iter.func, ast.Name) and gens[0].iter.func.id == "range" \
+                and len(gens[0].iter.args) == 1 and not gens[0].iter.keywords:
+            # [f(i) for i in range(n)] with a symbolic n: the list of the images, evaluated lazily and memoised per index term (so that the same
+            # position denotes the same value, e.g. the same reduction); the element expression must be pure
+            from . import npmodel, lazyseq
+            n = npmodel.unwrap(self.eval(gens[0].iter.args[0]))
+            if T.is_sym(n) and T.is_sym(T.simp(n)):
+                saved_env, fr, memo = self.env, self, {}
+
+                def item(k):
+                    key = T.zi(k).get_id() if T.is_sym(k) else ("c", k)
+                    if key in memo:
+                        return memo[key]
+                    env = Env(saved_env)
+                    old = fr.env
+                    fr.env = env
+                    try:
+                        fr.assign(gens[0].target, k)
+                        memo[key] = fr.eval(node.elt)
+                        return memo[key]
+                    finally:
+                        fr.env = old
+                saved_obs = self.eng.obligations
+                self.eng.obligations = []
+                try:
+                    probe = npmodel.unwrap(item(T.fresh("probe", "int")))
+                finally:
+                    self.eng.obligations = saved_obs
+                return lazyseq.SymList(T.ite(T.compare("gt", n, 0), n, 0), item, scalar=T.is_scalar(probe))
+            out = []
+            for k in range(int(T.simp(n)) if T.is_sym(n) else int(n)):
+                saved = self.env
+                self.env = Env(saved)
+                try:
+                    self.assign(gens[0].target, k)
+                    out.append(self.eval(node.elt))
+                finally:
+                    self.env = saved
+            return out
         if len(gens) == 1 and not gens[0].ifs and isinstance(gens[0].iter, ast.Name):
             try:
                 src = self.load_name(gens[0].iter.id)
             except (KeyError, Unsupported):
                 src = None
+            if isinstance(src, Arr) and src.ndim >= 1 and T.is_sym(src.shape[0]) and T.is_sym(T.simp(src.shape[0])):
+                # [f(row) for row in <array with a symbolic number of rows>]
+                from . import npmodel, lazyseq
+                arr = src
+                src = lazyseq.SymList(arr.shape[0], lambda k, arr=arr: npmodel.getitem(self.eng, arr, k) if arr.ndim > 1 else arr.fn(k), scalar=arr.ndim == 1)
             if type(src).__name__ == "SymList":
                 # [f(x) for x in <list of symbolic length>]: the list of the images (evaluated lazily; the element expression must be pure)
                 from . import lazyseq
@@ -1353,7 +1397,12 @@ class Frame:
                         return fr.eval(node.elt)
                     finally:
                         fr.env = old
-                probe = item(T.fresh("probe", "int"))
+                saved_obs = self.eng.obligations
+                self.eng.obligations = []
+                try:
+                    probe = item(T.fresh("probe", "int"))
+                finally:
+                    self.eng.obligations = saved_obs
                 from . import npmodel
                 return lazyseq.SymList(src.length, item, scalar=T.is_scalar(npmodel.unwrap(probe)))
         out = []
